@@ -593,6 +593,8 @@ func c13EndToEnd(rng *hx.Rng, tier string, w *hx.Writer) {
 					oracle = hx.Fail("collector-panic", "a node goroutine panicked: "+hx.LastPanic)
 				case len(o.reports[subIdx]) != 1 || total != 1:
 					oracle = hx.Fail("share-not-delivered-end-to-end", fmt.Sprintf("request id of %d bytes, %s: the members' shares did not reach the submitter's recovery stage (%d reports, want 1)", width, name, total))
+				case o.second == 0:
+					oracle = hx.Fail("collector-wedged", fmt.Sprintf("request id of %d bytes, %s: the request was served, the next request of the same members was never reported", width, name))
 				}
 				w.Put(hx.Case{Entry: "-", Op: 0, Args: hx.L(hx.Zi(n), hx.Zi(width), hx.Zi(sched), hx.Z(reqID)),
 					Impl: hx.L(hx.Zi(total)), Oracle: oracle, Tags: []string{"end-to-end", fmt.Sprintf("idwidth-%d", width), name, "nt"}})
